@@ -115,7 +115,21 @@ def run(ctx):
             fields = dict(zip(ent[4], ent[3]))
             korig = fields["key"]
             alts = korig[1] if korig[0] == "phi" else (korig,)
-            ok = all(a[0] == "call" and a[4] in key_builders and a[2][1][0] == "field" and a[2][1][2] == "price" and same(a[2][1][1], fields["order"]) for a in alts)
+            oalts = fields["order"][1] if fields["order"][0] == "phi" else (fields["order"],)
+
+            def of_stored_order(x):
+                # the key's price operand is `<o>.price` with <o> the stored order (or, when order and key are joined
+                # together as a pair, one of the joined order values)
+                return same(x, fields["order"]) or any(same(x, o) for o in oalts)
+            ok = all(a[0] == "call" and a[4] in key_builders and a[2][1][0] == "field" and a[2][1][2] == "price" and of_stored_order(a[2][1][1]) for a in alts)
+            if ok and len(oalts) > 1 and len(alts) > 1:
+                # pairwise join: each key alternative is built with the builder of the side whose constructor made that order
+                for a in alts:
+                    o = a[2][1][1]
+                    ctor = [y[4] for y in walk(o) if y[0] == "call" and y[4] in ("buy_limit", "buy_market", "sell_limit", "sell_market")]
+                    want = "Bid" if key_builders[a[4]] == "Bid" else "Ask"
+                    if ctor and not same(o, fields["order"]):
+                        ok = ok and all(("buy" in c) == (want == "Bid") for c in ctor)
         ctx.check(ok, "K1-key-price", "create|entry", pushes[0].loc(), "the stored entry pairs the order with the key built from that order's price",
                   "the stored entry's key is not built from the stored order's price")
     # price writes: only where the key is rebuilt afterwards
@@ -212,6 +226,26 @@ def run(ctx):
             ctx.check(ok, "K4-loop", "%s|exit-bb%d" % (f.short(), 0 if ok else b), q.loc(t.sp),
                       "loop exit: %s" % why, "matching loop can be left for another reason: %s" % (" && ".join(render_atom_safe(a) for a in (atoms or [])) or t.k))
         ctx.check(len(exits) >= 1, "K4-loop", f.short() + "|exits", ctx.loc(f), "%d loop exits analysed" % len(exits))
+        # termination: when the opposite side is empty (best_order_idx is None) the loop must be LEFT – otherwise a
+        # market order (whose sentinel price always admits the empty side's sentinel best price) spins forever
+        none_edges = []
+        for b in sorted(body):
+            t = q.body.blocks[b].term
+            if t.k != "switch":
+                continue
+            for s2 in set(q.body.succs(b)):
+                if any(a[0] == "variant" and a[2] == ("None",) and a[1][0] == "call" and a[1][4] == "best_order_idx" for a in q.cfg.edge_atoms(b, s2)):
+                    none_edges.append((b, s2))
+        outside = [x for x in range(len(q.body.blocks)) if x not in body]
+        leaves = bool(none_edges) and all(s2 not in body or head not in q.cfg.reach_from(s2, cut_blocks=outside) for (_b, s2) in none_edges)
+        ctx.check(leaves, "K4-loop", f.short() + "|empty-side-exit", c.loc(), "when the %s side is empty (no best order) the matching loop is left" % r.lower(),
+                  "with the %s side empty the loop is not left (no path from the `None` arm leaves it before the next iteration): an unfillable market order never terminates" % r.lower())
+        # progress: every iteration that acquires a passive order calls the trade writer (fill >= 1 by K5 / vol > 0)
+        tw = [x for x in q.calls() if x.b in body and x.target is not None and x.target.path in {t_[0].path for t_ in m.trade_writers()}]
+        succ_c = [x for x in q.body.succs(c.b) if not q.body.blocks[x].cleanup]
+        prog_ok = bool(tw) and bool(succ_c) and (head not in q.cfg.reach_from(succ_c[0], cut_blocks=set(outside) | {x.b for x in tw} | {s2 for (_b, s2) in none_edges}))
+        ctx.check(prog_ok, "K4-loop", f.short() + "|progress", c.loc(), "every iteration either fills (trade writer called) or leaves the loop",
+                  "an iteration can return to the loop head without a fill and without leaving")
         # aggressor side = opposite(r) in every calling context
         sides = set()
         n_ctx = 0
